@@ -1516,6 +1516,10 @@ int XMLDateTime::findUTCSign (const XMLSize_t start)
 //
 int XMLDateTime::parseInt(const XMLSize_t start, const XMLSize_t end) const
 {
+    // a number has at least one digit
+    if (start >= end)
+        ThrowXMLwithMemMgr(NumberFormatException, XMLExcepts::XMLNUM_emptyString, fMemoryManager);
+
     unsigned int retVal = 0;
     for (XMLSize_t i=start; i < end; i++) {
 
